@@ -82,7 +82,11 @@ pub fn analyze_rows(egraph: &EGraph, enode: &Expr) -> Rows {
         Constant(DataValue::Bool(false)) => 0.0,
         Constant(DataValue::Bool(true)) => 1.0,
         And([a, b]) => x(a) * x(b), // TODO: consider dependency
-        Or([a, b]) => x(a) + x(b) - x(a) * x(b), // TODO: consider dependency
+        // TODO: consider dependency
+        // NOTE: in this form the result is exactly 1 when an operand is 1. `true or p` is in the
+        // class of `true`; if rounding made it 0.99999994, the rows of every `filter true` class
+        // would creep down by one ulp per analysis round and the rebuild would not finish.
+        Or([a, b]) => 1.0 - (1.0 - x(a)) * (1.0 - x(b)),
         Xor([a, b]) => x(a) + x(b) - 2.0 * x(a) * x(b),
         Not(a) => 1.0 - x(a),
         Gt(_) | Lt(_) | GtEq(_) | LtEq(_) | Eq(_) | NotEq(_) | Like(_) => 0.5,
